@@ -186,7 +186,7 @@ def cfloat(hexs):
 TOKEN = re.compile(r'"(\d+):([^"]*)"')
 
 
-def coq_eval(header, case_terms, case_type, check_fn, shard=250, timeout=900, jobs=16, preamble=""):
+def coq_eval(header, case_terms, case_type, check_fn, shard=250, timeout=400, jobs=16, preamble=""):
     """Write shards of `Definition cases : list T := [...]`, evaluate check_fn by vm_compute in
     one coqc per shard, return list of (verdict, detail, trivial, tags) per case in order."""
     d = os.path.join(scratch(), "cases-%d" % (int(time.time() * 1e6) % 10**9))
